@@ -29,6 +29,9 @@ TARGETS = [
     ("GetFreeSendBufferBits", "utcp/utcp_packet.c", "c", {}, None),
     ("utcp_send_would_block", "utcp/utcp.c", "c", {}, None),
     ("utcp_gettime_ms", "utcp/utcp.c", "c", {}, None),
+    ("PackedHeader_Pack", "utcp/utcp_packet_notify.c", "c", {}, None),
+    ("ClAMP", "utcp/utcp_packet_notify.c", "c", {}, None),
+    ("MIN", "utcp/utcp_packet_notify.c", "c", {}, None),
     ("bits2bytes", "abstract/utcp.cpp", "c++", {}, None),
     ("num", "abstract/utcp.cpp", "c++", {}, "large_bunch_num"),
 ]
@@ -317,11 +320,18 @@ class Fn:
                 if y.const is not None and y.const >= 0 and (y.const & (y.const + 1)) == 0:
                     # mask 2^k - 1: two's complement AND == Euclidean remainder
                     return Val(text="(%s %% %d)" % (x.lean(), y.const + 1))
-            return Val(text="(Int.land %s %s)" % (al, bl))
+            if signed:
+                raise TransError("bitwise & of signed operands")
+            return Val(text="((Int.toNat %s &&& Int.toNat %s : Nat) : Int)" % (al, bl))
         if op == "|":
-            return Val(text="(Int.lor %s %s)" % (al, bl))
+            # core Lean has no bitwise operations on Int: unsigned operands are non-negative here, so go through Nat
+            if signed:
+                raise TransError("bitwise | of signed operands")
+            return Val(text="((Int.toNat %s ||| Int.toNat %s : Nat) : Int)" % (al, bl))
         if op == "^":
-            return Val(text="(Int.xor %s %s)" % (al, bl))
+            if signed:
+                raise TransError("bitwise ^ of signed operands")
+            return Val(text="((Int.toNat %s ^^^ Int.toNat %s : Nat) : Int)" % (al, bl))
         if op == "<<":
             if b.const is None or not (0 <= b.const < bits):
                 raise TransError("shift by non-constant / out-of-range amount")
